@@ -78,7 +78,7 @@ def plain_exprs(cls):
 
 SUBS = [("float", [("x", "0.17")]), ("rational", [("x", "Rational(1, 3)")]), ("symbol", [("x", "y")]),
         ("expr", [("x", "y + 1")]), ("pairs", [("x", "0.17"), ("y", "-0.6")]), ("int", [("x", "2")]),
-        ("y-only", [("y", "1.3")])]
+        ("y-only", [("y", "1.3")]), ("chained", [("x", "2 * y"), ("y", "0.25")])]
 
 
 def evaluate(cls, d, mixed=False):
@@ -325,11 +325,17 @@ def run(ctx):
                         seqs.append([[e1, 0], [e2, off]])
                 if len(b2.cod) and ref.ty_key(b2.cod[:len(b1.dom)]) == ref.ty_key(b1.dom) and len(b1.dom):
                     seqs.append([[e2, 0], [e1, 0]])
+        if cls == "circuit":   # boxes that print alike but differ (rounded phase, dagger flag) in one diagram
+            V = "QuantumGate('V', 1, [1, 0, 0, 1j])"
+            for e1 in ("Rx(x)", "Rz(x + y)", "scalar(x)"):
+                off = [[e1, 0]] if not e1.startswith("scalar") else []
+                seqs.append(off + [["Rz(0.25)", 0], ["Rz(0.2501)", 0]] if off else [["Rz(0.25)", 0], ["Rz(0.2501)", 0], [e1, 1]])
+                seqs.append(off + [[V, 0], [V + ".dagger()", 0]] if off else [[V, 0], [V + ".dagger()", 0], [e1, 1]])
         if ctx.quick:
-            seqs = seqs[::3]
+            seqs = seqs[::3] + seqs[-6:]
             ctx.cap_hit("%s: two-box diagrams every 3rd (all single boxes complete)" % cls)
         for seq in seqs:
-            for sub in (SUBS[0], SUBS[3], SUBS[4]):
+            for sub in (SUBS[0], SUBS[3], SUBS[4], SUBS[7]):
                 mode = "args" if len(sub[1]) == 1 else "pairs"
                 items.append(("case", dict(cls=cls, layers=seq, subs=list(sub), mode=mode)))
     ctx.bounds.update(expressions=EXPRS, substitutions=[s[0] for s in SUBS], values=VALUES,
